@@ -56,6 +56,11 @@ def configs(tier):
             out.append(("columns", "rec", delim, n))
             out.append(("columns", "sf", delim, n))
         out.append(("styles", delim, 2))
+    # the C++ cursor machines of the subset readers, interpreted from records.cpp
+    for sizes in (((2, 1, 3), (4, 4)) if q else ((2, 1, 3), (4, 4), (1, 2, 1, 2))):
+        for nrows in ((3, 4) if q else (3, 4, 5)):
+            out.append(("xx_slice", nrows, sizes))
+            out.append(("xx_columns", nrows, sizes))
     return out
 
 
@@ -130,8 +135,19 @@ def _check_table(cx, what, res, cells, rows, cols, plain=False):
                 cx.check_eq("%s: cells equal indexing the full table" % what, g, c)
 
 
+def extra_functions():
+    from props import recxx
+    return recxx.functions()
+
+
 def harness(cx, cfg):
     what = cfg[0]
+    if what == "xx_slice":
+        from props import recxx
+        return recxx.h_read_binary_slice(cx, cfg[1], cfg[2])
+    if what == "xx_columns":
+        from props import recxx
+        return recxx.h_read_binary_columns(cx, cfg[1], cfg[2])
     if what == "styles":
         return h_styles(cx, cfg)
     obj, delim, n = cfg[1], cfg[2], cfg[3]
@@ -276,6 +292,35 @@ def replay(cand):
     no = {"reproduced": False, "what": "agrees", "key": None}
     d = tempfile.mkdtemp(prefix="c02-")
     try:
+        if what in ("xx_slice", "xx_columns"):
+            n = 7
+            t = np.zeros(n, dtype=[("a", "<i2"), ("b", "u1"), ("c", "<f4"), ("d", "S3")])
+            t["a"] = np.arange(n) * 3
+            t["b"] = np.arange(n) + 1
+            t["c"] = np.arange(n) * 0.5
+            t["d"] = [("r%d" % i).encode() for i in range(n)]
+            fn = os.path.join(d, "x.rec")
+            sfile.write(t, fn)
+            with sfile.SFile(fn) as s_:
+                if what == "xx_slice":
+                    for a in range(0, n + 1):
+                        for b in range(a, n + 1):
+                            for st in (1, 2, 3):
+                                try:
+                                    got = s_[a:b:st]
+                                except Exception as e:
+                                    return {"reproduced": True, "key": "cxx:slice", "what": "binary slice [%d:%d:%d] of %d rows raised %s: %s" % (a, b, st, n, type(e).__name__, e)}
+                                if got.tobytes() != t[a:b:st].tobytes():
+                                    return {"reproduced": True, "key": "cxx:slice", "what": "binary slice [%d:%d:%d] of %d rows returns a=%r, expected %r" % (a, b, st, n, got["a"].tolist(), t[a:b:st]["a"].tolist())}
+                else:
+                    names = list(t.dtype.names)
+                    for rows in ([0], [2, 5], [1, 2, 6], list(range(n)), [6]):
+                        for cols in (["a"], ["b", "d"], ["c"], ["a", "c", "d"], names):
+                            got = s_.read(rows=rows, columns=cols)
+                            for c in cols:
+                                if not np.array_equal(got[c], t[rows][c]):
+                                    return {"reproduced": True, "key": "cxx:columns", "what": "read(rows=%r, columns=%r): column %r = %r, expected %r" % (rows, cols, c, got[c].tolist(), t[rows][c].tolist())}
+            return no
         if what == "styles":
             _, delim, n = cfg
             obj = "sf"
